@@ -19,8 +19,10 @@ func calleeNamed(call *ssa.Call, name string) bool {
 
 func checkC17(c *Ctx) {
 	defer c17BMP(c)
+	defer c17LengthThresholds(c)
 
 	c.Decided = append(c.Decided,
+		"K-C17-lenbytes: in the BER-to-DER transcoder, every comparison of a length (or the length shifted by whole bytes) with a constant in lengthLength sits at a power of 256",
 		"G-C17-mac: getSafeContents returns bags only on paths where verifyMac returned nil (first try or the empty-password retry); verifyMac compares the stored digest with HMAC-SHA1(key derived from the password, content) in constant time; every caller of getSafeContents returns its error",
 		"G-C17-digest: PKCS#7 verifySignature rejects a message-digest mismatch (hash of the content vs the signed attribute), a missing signer certificate and an unsupported algorithm, and returns CheckSignature over the DER SET of signed attributes (or the content when there are none) with the signer's EncryptedDigest; Verify rejects a message without signers and any failing signer",
 		"B-PANIC-assert: no single-value type assertion on caller-supplied keys or parsed values in the PKCS#7/PKCS#12 code",
